@@ -487,4 +487,189 @@ theorem inv_main {s s' : State} {evs : List Ev} (h : Inv s)
       | (intro i h1 h2; simp [phase, WOK, hpc, setW, wakeAll, PoolOK, PreOK, BatchOK] at *; grind)
       | (simp [Glob, Done, numThread, PreOK, Fresh, PoolOK, hpc, setW, wakeAll] at *; grind)
 
+def inBatch (s : State) : Prop := phase s = .batch true ∨ phase s = .batch false
+
+theorem glob_batch_frame {s s' : State} (hm : s'.mpc = s.mpc) (hn : s.next ≤ s'.next)
+    (hr : s'.reqN = s.reqN) (hg : Glob s) (hin : inBatch s) (hb : BatchOK s → BatchOK s') : Glob s' := by
+  unfold Glob at hg ⊢
+  rw [hm]
+  cases hmm : s.mpc <;> simp only [hmm, inBatch, phase] at hg hin ⊢
+  all_goals try (split at hin <;> simp at hin)
+  all_goals try simp at hin
+  · exact hb hg
+  · exact hb hg
+  · exact hb hg
+  · exact ⟨hb hg.1, by omega⟩
+
+macro "batch_frame " s:ident hg0:ident hm:ident " with " t:term : tactic =>
+  `(tactic| (apply glob_batch_frame (s := $s) (hg := $hg0) <;>
+      first | rfl | (simp [setW]; done) | (simp [inBatch, phase, $hm:ident]; done) | exact $t))
+
+theorem inv_worker_load {s s' : State} {i : Nat} {evs : List Ev} (h : Inv s)
+    (hi : 1 ≤ i ∧ i ≤ s.N) (hpc : (s.w i).pc = .load)
+    (hs : (if s.signal = 0 then some (setW s i ⟨.halted, s.signal⟩, [Ev.load i .signal s.signal])
+      else some (setW s i ⟨.fetch, s.signal⟩, [Ev.load i .signal s.signal])) = some (s', evs)) : Inv s' := by
+  obtain ⟨ho, hw, hg⟩ := h
+  have hwi := hw i hi.1 hi.2
+  have hg0 := hg
+  split at hs
+  all_goals rename_i hsig
+  all_goals (simp at hs; obtain ⟨rfl, _⟩ := hs)
+  all_goals (cases hm : s.mpc <;> simp only [Glob, phase, hm, WOK, hpc] at hg hw hwi)
+  all_goals try (split at hwi <;> simp at hwi; done)
+  all_goals try (simp at hwi; done)
+  all_goals try (cases ha : s.alive <;> simp [ha] at hwi; done)
+  all_goals refine ⟨?_, ?_, ?_⟩
+  all_goals try first
+      | (intro j hj; simp [setW] at hj ⊢; grind)
+      | (intro j h1 h2; simp [phase, WOK, hm, setW, PoolOK, PreOK, BatchOK] at *; grind)
+      | (simp [Glob, Done, numThread, PreOK, Fresh, PoolOK, hm, setW] at *; grind)
+  all_goals first
+      | batch_frame s hg0 hm with (fun hb => batch_setW_frame (i := i) (x := ⟨.fetch, s.signal⟩) hb hi (by simp [hpc]) (by simp)
+            (by simp [post, hpc]))
+      | (exfalso; simp [BatchOK, PoolOK] at hg; grind)
+
+theorem inv_worker_fetch {s s' : State} {i : Nat} {evs : List Ev} (h : Inv s)
+    (hi : 1 ≤ i ∧ i ≤ s.N) (hpc : (s.w i).pc = .fetch)
+    (hs : (if s.next < s.ntask then
+      some ({ setW s i ⟨.exec s.next, (s.w i).status⟩ with next := s.next + 1 }, [Ev.fadd i .next s.next])
+    else some ({ setW s i ⟨.fin, (s.w i).status⟩ with next := s.next + 1 }, [Ev.fadd i .next s.next]))
+      = some (s', evs)) : Inv s' := by
+  obtain ⟨ho, hw, hg⟩ := h
+  have hwi := hw i hi.1 hi.2
+  have hg0 := hg
+  split at hs
+  all_goals rename_i hlt
+  all_goals (simp at hs; obtain ⟨rfl, _⟩ := hs)
+  all_goals (cases hm : s.mpc <;> simp only [Glob, phase, hm, WOK, hpc] at hg hw hwi)
+  all_goals try (split at hwi <;> simp at hwi; done)
+  all_goals try (simp at hwi; done)
+  all_goals try (cases ha : s.alive <;> simp [ha] at hwi; done)
+  all_goals refine ⟨?_, ?_, ?_⟩
+  all_goals try first
+      | (intro j hj; simp [setW] at hj ⊢; grind)
+      | (intro j h1 h2; simp [phase, WOK, hm, setW, PoolOK, PreOK, BatchOK] at *; grind)
+  all_goals first
+      | batch_frame s hg0 hm with (fun hb => batch_wfetch_succ hb hi hpc hlt)
+      | batch_frame s hg0 hm with (fun hb => batch_wfetch_fail hb hi hpc hwi hlt)
+
+theorem inv_worker_exec {s s' : State} {i t : Nat} {evs : List Ev} (h : Inv s)
+    (hi : 1 ≤ i ∧ i ≤ s.N) (hpc : (s.w i).pc = .exec t)
+    (hs : some ({ setW s i ⟨.fetch, (s.w i).status⟩ with
+              execCnt := fun u => if u = t then s.execCnt u + 1 else s.execCnt u,
+              execBy := fun u => if u = t then i else s.execBy u }, [Ev.exec i i t]) = some (s', evs)) :
+    Inv s' := by
+  obtain ⟨ho, hw, hg⟩ := h
+  have hwi := hw i hi.1 hi.2
+  have hg0 := hg
+  simp at hs; obtain ⟨rfl, _⟩ := hs
+  cases hm : s.mpc <;> simp only [Glob, phase, hm, WOK, hpc] at hg hw hwi
+  all_goals try (split at hwi <;> simp at hwi; done)
+  all_goals try (simp at hwi; done)
+  all_goals try (cases ha : s.alive <;> simp [ha] at hwi; done)
+  all_goals refine ⟨?_, ?_, ?_⟩
+  all_goals try first
+      | (intro j hj; simp [setW] at hj ⊢; grind)
+      | (intro j h1 h2; simp [phase, WOK, hm, setW, PoolOK, PreOK, BatchOK] at *; grind)
+  all_goals batch_frame s hg0 hm with (fun hb => batch_wexec hb hi hpc)
+
+theorem inv_worker_fin {s s' : State} {i : Nat} {evs : List Ev} (h : Inv s)
+    (hi : 1 ≤ i ∧ i ≤ s.N) (hpc : (s.w i).pc = .fin)
+    (hs : some ({ setW s i ⟨.wait, (s.w i).status⟩ with ndone := s.ndone + 1 }, [Ev.fadd i .ndone s.ndone])
+      = some (s', evs)) : Inv s' := by
+  obtain ⟨ho, hw, hg⟩ := h
+  have hwi := hw i hi.1 hi.2
+  have hg0 := hg
+  simp at hs; obtain ⟨rfl, _⟩ := hs
+  cases hm : s.mpc <;> simp only [Glob, phase, hm, WOK, hpc] at hg hw hwi
+  all_goals try (split at hwi <;> simp at hwi; done)
+  all_goals try (simp at hwi; done)
+  all_goals try (cases ha : s.alive <;> simp [ha] at hwi; done)
+  all_goals refine ⟨?_, ?_, ?_⟩
+  all_goals try first
+      | (intro j hj; simp [setW] at hj ⊢; grind)
+      | (intro j h1 h2; simp [phase, WOK, hm, setW, PoolOK, PreOK, BatchOK] at *; grind)
+  all_goals batch_frame s hg0 hm with (fun hb => batch_wfin hb hi hpc hwi)
+
+theorem inv_spurious {s s' : State} {i : Nat} {evs : List Ev} (h : Inv s)
+    (hs : step s (.spurious i) = some (s', evs)) : Inv s' := by
+  simp only [step, stepSpurious] at hs
+  split at hs
+  · rename_i hpc
+    obtain ⟨ho, hw, hg⟩ := h
+    have hi : 1 ≤ i ∧ i ≤ s.N := by
+      by_cases hc : 1 ≤ i ∧ i ≤ s.N
+      · exact hc
+      · have := ho i (by omega)
+        simp [this] at hpc
+    have hwi := hw i hi.1 hi.2
+    have hg0 := hg
+    simp at hs; obtain ⟨rfl, _⟩ := hs
+    cases hm : s.mpc <;> simp only [Glob, phase, hm, WOK, hpc] at hg hw hwi
+    all_goals try (cases ha : s.alive <;> simp [ha] at hwi; done)
+    all_goals refine ⟨?_, ?_, ?_⟩
+    all_goals try first
+        | (intro j hj; simp [setW] at hj ⊢; grind)
+        | (intro j h1 h2; simp [phase, WOK, hm, setW, PoolOK, PreOK, BatchOK] at *; grind)
+        | (simp [Glob, Done, numThread, PreOK, Fresh, PoolOK, hm, setW] at *; grind)
+    all_goals batch_frame s hg0 hm with (fun hb => batch_setW_frame (i := i) (x := ⟨.wait, (s.w i).status⟩) hb hi (by simp [hpc]) (by simp)
+            (by simp [post, hpc]))
+  · simp at hs
+
+theorem inv_worker_wait {s s' : State} {i : Nat} {evs : List Ev} (h : Inv s)
+    (hi : 1 ≤ i ∧ i ≤ s.N) (hpc : (s.w i).pc = .wait)
+    (hs : (if s.signal ≠ (s.w i).status then some (setW s i ⟨.load, (s.w i).status⟩, [Ev.waitPass i (s.w i).status])
+      else some (setW s i ⟨.sleep, (s.w i).status⟩, [Ev.waitBlock i (s.w i).status])) = some (s', evs)) : Inv s' := by
+  obtain ⟨ho, hw, hg⟩ := h
+  have hwi := hw i hi.1 hi.2
+  have hg0 := hg
+  split at hs
+  all_goals rename_i hsig
+  all_goals (simp at hs; obtain ⟨rfl, _⟩ := hs)
+  all_goals (cases hm : s.mpc <;> simp only [Glob, phase, hm, WOK, hpc] at hg hw hwi)
+  all_goals refine ⟨?_, ?_, ?_⟩
+  all_goals try first
+      | (intro j hj; simp [setW]; grind)
+      | (intro j h1 h2; simp [phase, WOK, hm, setW, PoolOK, PreOK, BatchOK] at *; grind)
+      | (simp [Glob, Done, numThread, PreOK, Fresh, PoolOK, hm, setW] at *; grind)
+  all_goals first
+      | exact glob_batch_frame (s := s) rfl (Nat.le_refl _) rfl hg0 (by simp [inBatch, phase, hm]) (fun hb =>
+          batch_setW_frame (i := i) (x := ⟨.load, (s.w i).status⟩) hb hi (by simp [hpc]) (by simp)
+            (by simp [post, hpc]; intro h; exact hsig h.symm))
+      | exact glob_batch_frame (s := s) rfl (Nat.le_refl _) rfl hg0 (by simp [inBatch, phase, hm]) (fun hb =>
+          batch_setW_frame (i := i) (x := ⟨.sleep, (s.w i).status⟩) hb hi (by simp [hpc]) (by simp)
+            (by simp [post, hpc]))
+
+theorem inv_worker {s s' : State} {i : Nat} {evs : List Ev} (h : Inv s)
+    (hs : step s (.worker i) = some (s', evs)) : Inv s' := by
+  simp only [step, stepWorker] at hs
+  have hi : 1 ≤ i ∧ i ≤ s.N := by
+    by_cases hc : 1 ≤ i ∧ i ≤ s.N
+    · exact hc
+    · have := h.outside i (by omega)
+      simp [this] at hs
+  split at hs
+  · simp at hs
+  · simp at hs
+  · simp at hs
+  · rename_i hpc; exact inv_worker_wait h hi hpc hs
+  · rename_i hpc; exact inv_worker_load h hi hpc hs
+  · rename_i hpc; exact inv_worker_fetch h hi hpc hs
+  · rename_i t hpc; exact inv_worker_exec h hi hpc hs
+  · rename_i hpc; exact inv_worker_fin h hi hpc hs
+
+/-- every step preserves the invariant -/
+theorem inv_step {s s' : State} {a : Act} {evs : List Ev} (h : Inv s)
+    (hs : step s a = some (s', evs)) : Inv s' := by
+  cases a with
+  | call c => exact inv_call h hs
+  | main => exact inv_main h hs
+  | worker i => exact inv_worker h hs
+  | spurious i => exact inv_spurious h hs
+
+theorem inv_of_reachable {s : State} (h : Reachable s) : Inv s := by
+  induction h with
+  | init => exact inv_init
+  | step _ hs ih => exact inv_step ih hs
+
 end MjProof.ThreadPool
